@@ -89,35 +89,62 @@ theorem listener_linear (t : Tree) :
     have h0 : TD.init.steps = 0 := rfl
     rw [this, h0] at hc; omega
 
-/-! ### never (nil, nil) — false of the current code (F7) -/
+/-! ### never (nil, nil) -/
 
-/-- full statement: an error-free outcome carries a non-nil model -/
-def never_nilnil_full : Prop :=
+/-- full statement, relative to an error model `Err` (which rules report "not supported" on entry): an error-free outcome
+of a grammatical, syntactically complete tree carries a non-nil model -/
+def never_nilnil_full (Err : Dawgs.C09.Tables) : Prop :=
   ∀ t : Tree, t.rootRule = some 0 → t.wf refs = true → t.conforms must = true →
-    T.outcome (E.listenerErrors t).length t = .ok → T.modelNonNil t = true
+    T.outcome (Err.listenerErrors t).length t = .ok → T.modelNonNil t = true
 
-/-- `CALL foo.bar()` parses without any error under frontend.NewContext() and QueryVisitor.Query is never assigned -/
-theorem never_nilnil_witness :
-    callTree.rootRule = some 0 ∧ callTree.wf refs = true ∧ callTree.conforms must = true ∧
-    E.listenerErrors callTree = [] ∧ T.outcome 0 callTree = .ok ∧ T.modelNonNil callTree = false := by
-  decide +kernel
-
-theorem never_nilnil_refuted : ¬ never_nilnil_full := by
-  intro h
-  obtain ⟨h1, h2, h3, h4, h5, h6⟩ := never_nilnil_witness
-  have := h callTree h1 h2 h3 (by rw [h4]; exact h5)
-  rw [h6] at this; cases this
-
-/-- what does hold: if from the root there is a chain of nodes on which QueryVisitor stays the active visitor and which
-ends in a rule whose QueryVisitor method assigns `Query` (oC_RegularQuery, oC_SingleQuery), the model is non-nil -/
+/-- what holds for every table: if from the root there is a chain of nodes on which QueryVisitor stays the active visitor
+and which ends in a rule whose QueryVisitor method assigns `Query` (oC_RegularQuery, oC_SingleQuery), the model is non-nil -/
 theorem never_nilnil_partial (t : Tree) (h : T.reaches t = true) : T.modelNonNil t = true := by
   obtain ⟨st, hrun, _, _, _⟩ := walk_ok T hbT hfT t T.init T.root 0 [] rfl (by omega)
   have := reaches_sets T hbT hfT t T.init 0 [] rfl (by omega) h st hrun
   unfold Tables.modelNonNil; unfold Tables.run at *; rw [hrun]; exact this
 
-/-- the repaired listener (proposed fix: StandaloneCall reported as unsupported): a nil model always comes with an error.
-Stated for any table in which every rule directly below the chain either assigns the root or adds an error is out of
-scope here; the checkable part is: the only conforming Query alternatives are RegularQuery | StandaloneCall | BulkImportQuery -/
+/-- the decidable table condition for the full statement: along Cypher → Statement → Query → RegularQuery the root visitor
+pushes nothing, every OTHER alternative the grammar allows at each step (oC_Command; oC_StandaloneCall, oC_BulkImportQuery)
+reports an error on entry, and QueryVisitor.EnterOC_RegularQuery assigns the result -/
+theorem root_chain_ok : T.chainOK E.direct must rootChain = true := by decide +kernel
+
+/-- `never_nilnil` (live, full statement for the repaired listener): every grammatical, complete tree of oC_Cypher that raises no
+filter / unsupported-rule error yields a non-nil model -/
+theorem never_nilnil : never_nilnil_full E := by
+  intro t hroot _ hconf hok
+  apply never_nilnil_partial
+  have herr : (E.listenerErrors t).length = 0 := by
+    unfold Tables.outcome at hok
+    split at hok
+    · cases hok
+    · split at hok
+      · assumption
+      · cases hok
+  have hnil : E.listenerErrors t = [] := List.length_eq_zero_iff.1 herr
+  have hnd : ∀ x ∈ t.rules, E.direct x = false := by
+    intro x hx
+    unfold Dawgs.C09.Tables.listenerErrors at hnil
+    have := (List.filter_eq_nil_iff.1 hnil) x hx
+    simpa using this
+  exact reaches_of_chain T E.direct must rootChain t root_chain_ok (by rw [hroot]; rfl) hconf hnd
+
+/-- the OLD table (BaseVisitor.EnterOC_StandaloneCall an empty stub, F7): `CALL foo.bar()` parsed without any error under
+frontend.NewContext() and QueryVisitor.Query was never assigned -/
+theorem never_nilnil_witness_old :
+    callTree.rootRule = some 0 ∧ callTree.wf refs = true ∧ callTree.conforms must = true ∧
+    E_old.listenerErrors callTree = [] ∧ T.outcome 0 callTree = .ok ∧ T.modelNonNil callTree = false := by
+  decide +kernel
+
+theorem never_nilnil_refuted_old : ¬ never_nilnil_full E_old := by
+  intro h
+  obtain ⟨h1, h2, h3, h4, h5, h6⟩ := never_nilnil_witness_old
+  have := h callTree h1 h2 h3 (by rw [h4]; exact h5)
+  rw [h6] at this; cases this
+
+/-- with the repair the same tree is rejected -/
+theorem call_now_rejected : E.listenerErrors callTree ≠ [] := by decide +kernel
+
 theorem query_alternatives : refs.getD 9 [] = [10, 11, 48] := by decide +kernel
 
 /-! ### empty input -/
@@ -133,27 +160,23 @@ parseCypher returns errors.Join(ctx.Errors...) (extracted from the AST of parse.
 theorem empty_guard_present :
     Generated.Frontend.emptyInputRejected = true ∧ Generated.Frontend.parseReturnsJoinedErrors = true := by decide
 
-/-! ### the property at full strength (tree level), what is refuted, what is proved -/
+/-! ### the property at full strength (tree level) -/
 
 /-- C08 at the level the Lean model can express (ANTLR's lexing/parsing cost and Go runtime behaviour are outside):
 for every tree and every error count, no panic; an ok outcome has a non-nil model; listener work is linear;
 blank input is rejected. -/
-def C08_full : Prop :=
+def C08_full (Err : Dawgs.C09.Tables) : Prop :=
   (∀ (t : Tree) (errors : Nat) (why : String), T.outcome errors t ≠ .panic why ∧ TD.outcome errors t ≠ .panic why) ∧
-  never_nilnil_full ∧
+  never_nilnil_full Err ∧
   (∀ t : Tree, ∃ st, T.run t = .ok st ∧ st.steps ≤ 4 * size t) ∧
   (∀ (treeOf : String → Tree × Nat) (s : String), (∀ c ∈ s.toList, goIsSpace c = true) → T.parseCypher treeOf s = .err)
 
-def C08_partial : Prop :=
-  (∀ (t : Tree) (errors : Nat) (why : String), T.outcome errors t ≠ .panic why ∧ TD.outcome errors t ≠ .panic why) ∧
-  (∀ t : Tree, T.reaches t = true → T.modelNonNil t = true) ∧
-  (∀ t : Tree, ∃ st, T.run t = .ok st ∧ st.steps ≤ 4 * size t) ∧
-  (∀ (treeOf : String → Tree × Nat) (s : String), (∀ c ∈ s.toList, goIsSpace c = true) → T.parseCypher treeOf s = .err)
+/-- the live statement for the repaired listener -/
+theorem c08_full : C08_full E :=
+  ⟨outcome_not_panic, never_nilnil, fun t => (listener_linear t).1, fun treeOf s h => (empty_rejected treeOf s h).1⟩
 
-theorem c08_full_refuted : ¬ C08_full := fun h => never_nilnil_refuted h.2.1
-
-theorem c08_partial : C08_partial :=
-  ⟨outcome_not_panic, never_nilnil_partial, fun t => (listener_linear t).1, fun treeOf s h => (empty_rejected treeOf s h).1⟩
+/-- the statement was false of the older table -/
+theorem c08_full_refuted_old : ¬ C08_full E_old := fun h => never_nilnil_refuted_old h.2.1
 
 /-! Non-vacuity: a tree that exercises pushes and pops, and the teeth of the table condition. -/
 def sampleTree : Tree :=   -- RETURN 1 : Cypher → … → SinglePartQuery → Return → ProjectionBody → … → Literal
